@@ -342,6 +342,11 @@ aes_keyexp_128_enc_sse:
         key_expansion_128_sse
 	movdqa	[EXP_ENC_KEYS + 16*10], xmm1
 
+%ifdef SAFE_DATA
+        clear_scratch_gps_asm
+        clear_scratch_xmms_sse_asm
+%endif
+
 aes_keyexp_128_enc_sse_return:
 	ret
 
@@ -414,6 +419,11 @@ aes_keyexp_128_enc_avx512:
         vaeskeygenassist xmm2, xmm1, 0x36    ; Generating round key 10
         key_expansion_128_avx
 	vmovdqa	[EXP_ENC_KEYS + 16*10], xmm1
+
+%ifdef SAFE_DATA
+        clear_scratch_gps_asm
+        clear_scratch_xmms_avx_asm
+%endif
 
 aes_keyexp_128_enc_avx_return:
 	ret
